@@ -358,7 +358,7 @@ theorem insertThird_okc {s : Blob} (hinv : LInv s) (k : KeyId) (v : ValueId) (h 
     (hb : s.blocks[idx]? = some { dirty := d, node := .leaf oh (some opi) ok ov })
     (c1 : mapGet s.k2i ok = some idx) (c2 : mapGet s.h2i oh = some idx) :
     ∃ a s', insertThird k v h (some opi) idx ih side s = (.ok a, s') ∧ CacheStep s s' k h := by
-  obtain ⟨T, nl, ni, l, r, d', ph, pp, pl, pr, pl', pr', hrun, P⟩ :=
+  obtain ⟨T, nl, ni, l, r, d', ph, pp, pl, pr, pl', pr', hrun, P, _⟩ :=
     insertThird_post s hinv k v h opi idx ih side hk hh hlen1 hlive hb
   rw [hrun]
   have hTinv := P.linv
